@@ -144,7 +144,14 @@ def _rewrite_once(node: ast.AST, params) -> bool:
                     continue
                 lp = outer[li]
                 c = lp.target.id
-                if _mentions(outer[li + 1:gi], K) or _mentions(outer[li + 1:gi], Lt):
+                count_alias = None      # `n = len(L) - len(K)`: the number of members that leave, i.e. len(R)
+                mid = outer[li + 1:gi]
+                if len(mid) == 1 and isinstance(mid[0], ast.Assign) and len(mid[0].targets) == 1 and isinstance(mid[0].targets[0], ast.Name) and isinstance(mid[0].value, ast.BinOp) \
+                        and isinstance(mid[0].value.op, ast.Sub) and _len_of(mid[0].value.left) == Lt and _len_of(mid[0].value.right) == K \
+                        and sum(1 for x in _own(node) if isinstance(x, ast.Name) and x.id == mid[0].targets[0].id and isinstance(x.ctx, ast.Store)) == 1:
+                    count_alias = mid[0]
+                    mid = []
+                if _mentions(mid, K) or _mentions(mid, Lt):
                     continue
                 ki = None
                 for i in range(li - 1, -1, -1):
@@ -187,7 +194,7 @@ def _rewrite_once(node: ast.AST, params) -> bool:
                         new_test = t.id            # must turn out to be R below
                     if new_test is None:
                         continue
-                if len(occ) != 3 + in_test:       # init, append, write-back (+ test)
+                if len(occ) != 3 + in_test + (1 if count_alias is not None else 0):       # init, append, write-back (+ test) (+ count)
                     continue
                 # R: a list the leaving branch fills itself, or a new one
                 R = None
@@ -222,6 +229,47 @@ def _rewrite_once(node: ast.AST, params) -> bool:
                                                              value=ast.copy_location(ast.List(elts=[], ctx=ast.Load()), outer[ki])), outer[ki])
                 else:
                     outer[ki] = ast.copy_location(ast.Pass(), outer[ki])
+                if count_alias is not None:
+                    count_alias.value = ast.copy_location(ast.Call(func=ast.Name(id="len", ctx=ast.Load()), args=[ast.Name(id=R, ctx=ast.Load())], keywords=[]), count_alias.value)
+                    ast.fix_missing_locations(count_alias)
+                    # `n > 0` / `n != 0` / `n >= 1` / bare `n` in a test  ->  R (non-empty);  `n == 0` / `not n`  ->  not R
+                    nname = count_alias.targets[0].id
+                    par = {}
+                    for x in ast.walk(node):
+                        for ch in ast.iter_child_nodes(x):
+                            par[id(ch)] = x
+                    loads = [x for x in _own(node) if isinstance(x, ast.Name) and x.id == nname and isinstance(x.ctx, ast.Load)]
+                    repl = []
+                    for x in loads:
+                        p_ = par.get(id(x))
+                        if isinstance(p_, ast.Compare) and p_.left is x and len(p_.ops) == 1 and isinstance(p_.comparators[0], ast.Constant):
+                            k_, op = p_.comparators[0].value, p_.ops[0]
+                            if (k_ == 0 and isinstance(op, (ast.Gt, ast.NotEq))) or (k_ == 1 and isinstance(op, ast.GtE)):
+                                repl.append((p_, True))
+                                continue
+                            if (k_ == 0 and isinstance(op, (ast.Eq, ast.LtE))) or (k_ == 1 and isinstance(op, ast.Lt)):
+                                repl.append((p_, False))
+                                continue
+                        if isinstance(p_, (ast.If, ast.While)) and p_.test is x:
+                            repl.append((x, True))
+                            continue
+                        if isinstance(p_, ast.UnaryOp) and isinstance(p_.op, ast.Not):
+                            repl.append((p_, False))
+                            continue
+                        repl = None
+                        break
+                    if repl is not None:
+                        for nd, pos in repl:
+                            new_ = ast.Name(id=R, ctx=ast.Load()) if pos else ast.UnaryOp(op=ast.Not(), operand=ast.Name(id=R, ctx=ast.Load()))
+                            keep_ = {k2: getattr(nd, k2) for k2 in ("lineno", "col_offset", "end_lineno", "end_col_offset") if hasattr(nd, k2)}
+                            nd.__class__ = new_.__class__
+                            nd.__dict__.clear()
+                            nd.__dict__.update(new_.__dict__)
+                            nd.__dict__.update(keep_)
+                            ast.fix_missing_locations(nd)
+                        for i_, s_ in enumerate(outer):
+                            if s_ is count_alias:
+                                outer[i_] = ast.copy_location(ast.Pass(), count_alias)
                 dv = c + "__d"
                 drain = ast.For(target=ast.Name(id=dv, ctx=ast.Store()), iter=ast.Name(id=R, ctx=ast.Load()), body=[_call_stmt(Lx, "remove", dv, W)], orelse=[], type_comment=None)
                 for x in ast.walk(drain):
@@ -433,3 +481,133 @@ def exit_flag_flow(P, f: Func) -> Func:
                 node._parent = getattr(top, "_parent", None)  # type: ignore[attr-defined]
                 return Func(f.mod, f.qual, node, f.cls)
     return f
+
+
+# ---------------------------------------------------------------------------------------------------------------------
+# select, process, filter:   D = [v for v in L if C(v)];  for v in D: BODY;  [if D:] L[:] = [v for v in L if not C(v)]; REST
+
+def _attrs_read_by(P, names) -> set:
+    """attributes that the package methods of these names read (self.<attr>), one level of calls deep"""
+    out = set()
+    seen = set()
+    work = list(names)
+    depth = {n: 0 for n in names}
+    while work:
+        nm = work.pop()
+        if nm in seen:
+            continue
+        seen.add(nm)
+        for m in P.real_modules():
+            for f in m.funcs.values():
+                if f.name != nm:
+                    continue
+                for x in ast.walk(f.node):
+                    if isinstance(x, ast.Attribute) and isinstance(x.ctx, ast.Load):
+                        out.add(x.attr)
+                    if isinstance(x, ast.Call) and isinstance(x.func, ast.Attribute) and depth.get(nm, 0) < 2:
+                        depth.setdefault(x.func.attr, depth.get(nm, 0) + 1)
+                        work.append(x.func.attr)
+    return out
+
+
+def filter_writeback(P, f: Func) -> Func:
+    """The members selected by C are processed and then filtered out of L with the complementary comprehension: the same as draining the
+    selection (`for v in D: L.remove(v)`), provided nothing in between changes L or what C reads."""
+    from .cfg import MOD_ATTRS, MUTATORS
+    top = f.node
+    if not any(isinstance(x, ast.Assign) and isinstance(x.value, ast.ListComp) and (_full_slice(x.targets[0]) is not None or isinstance(x.targets[0], ast.Attribute)) for x in _own(top)):
+        return f
+    node = norm.clone(top)
+    changed = False
+    for owner in list(_own(node)):
+        for _, outer in _blocks(owner):
+            for gi, G in enumerate(outer):
+                cands = [(G, outer)] + ([(G.body[0], G.body)] if isinstance(G, ast.If) and not G.orelse and G.body else [])
+                for W, wblk in cands:
+                    if not (isinstance(W, ast.Assign) and len(W.targets) == 1 and isinstance(W.value, ast.ListComp) and len(W.value.generators) == 1):
+                        continue
+                    t = W.targets[0]
+                    Lx = _full_slice(t) if _full_slice(t) is not None else (t if isinstance(t, ast.Attribute) else None)
+                    gen = W.value.generators[0]
+                    if Lx is None or norm.attr_chain(Lx) is None or norm.U(gen.iter) != norm.U(Lx) or len(gen.ifs) != 1 or not isinstance(gen.target, ast.Name) \
+                            or not norm.is_name(W.value.elt, gen.target.id):
+                        continue
+                    Lt = norm.U(Lx)
+                    keep = norm.nnf(gen.ifs[0])
+                    # the selection with the complementary test, earlier in the same block
+                    di = None
+                    for i in range(gi - 1, -1, -1):
+                        s = outer[i]
+                        if isinstance(s, ast.Assign) and len(s.targets) == 1 and isinstance(s.targets[0], ast.Name) and isinstance(s.value, ast.ListComp) \
+                                and len(s.value.generators) == 1 and norm.U(s.value.generators[0].iter) == Lt and len(s.value.generators[0].ifs) == 1 \
+                                and isinstance(s.value.generators[0].target, ast.Name) and norm.is_name(s.value.elt, s.value.generators[0].target.id):
+                            sel = norm.nnf(norm.Subst({s.value.generators[0].target.id: ast.Name(id=gen.target.id, ctx=ast.Load())}).visit(norm.clone(s.value.generators[0].ifs[0])))
+                            if sel == norm.neg(keep):
+                                di = i
+                                break
+                    if di is None:
+                        continue
+                    D = outer[di].targets[0].id
+                    if W is not G:
+                        tt = G.test
+                        okt = (isinstance(tt, ast.Name) and tt.id == D) or (isinstance(tt, ast.Compare) and len(tt.ops) == 1 and _len_of(tt.left) == D
+                                                                            and isinstance(tt.ops[0], ast.Gt) and isinstance(tt.comparators[0], ast.Constant) and tt.comparators[0].value == 0)
+                        if not okt:
+                            continue
+                    between = outer[di + 1:gi]
+                    if _stores_to(between, Lt) or any(isinstance(x, ast.Name) and x.id == D and isinstance(x.ctx, (ast.Store, ast.Del)) for s in between for x in ast.walk(s)):
+                        continue
+                    # what the test reads is not touched in between
+                    cond_calls = {x.func.attr for x in ast.walk(gen.ifs[0]) if isinstance(x, ast.Call) and isinstance(x.func, ast.Attribute)}
+                    cond_attrs = _attrs_read_by(P, cond_calls) | {x.attr for x in ast.walk(gen.ifs[0]) if isinstance(x, ast.Attribute) and not isinstance(parent_call(x, gen.ifs[0]), ast.Call)}
+                    touched = set()
+                    for s in between:
+                        for x in ast.walk(s):
+                            if isinstance(x, ast.Call):
+                                nm = x.func.attr if isinstance(x.func, ast.Attribute) else (x.func.id if isinstance(x.func, ast.Name) else None)
+                                touched |= set(MOD_ATTRS.get(nm, ()))
+                                if isinstance(x.func, ast.Attribute) and x.func.attr in MUTATORS and isinstance(x.func.value, ast.Attribute):
+                                    touched.add(x.func.value.attr)
+                            if isinstance(x, ast.Attribute) and isinstance(x.ctx, (ast.Store, ast.Del)):
+                                touched.add(x.attr)
+                    if touched & cond_attrs:
+                        continue
+                    dv = gen.target.id + "__d"
+                    drain = ast.For(target=ast.Name(id=dv, ctx=ast.Store()), iter=ast.Name(id=D, ctx=ast.Load()), body=[_call_stmt(Lx, "remove", dv, W)], orelse=[], type_comment=None)
+                    for x in ast.walk(drain):
+                        if not hasattr(x, "lineno"):
+                            ast.copy_location(x, W)
+                    if W is G:
+                        outer[gi:gi + 1] = [drain]
+                    else:
+                        rest = G.body[1:]
+                        new = [drain]
+                        if rest:
+                            G.test = ast.copy_location(ast.Name(id=D, ctx=ast.Load()), G.test)
+                            G.body = rest
+                            new.append(G)
+                        outer[gi:gi + 1] = new
+                    changed = True
+                    break
+                if changed:
+                    break
+            if changed:
+                break
+        if changed:
+            break
+    if not changed:
+        return f
+    ast.fix_missing_locations(node)
+    for n in ast.walk(node):
+        for ch in ast.iter_child_nodes(n):
+            ch._parent = n  # type: ignore[attr-defined]
+    node._parent = getattr(top, "_parent", None)  # type: ignore[attr-defined]
+    return filter_writeback(P, Func(f.mod, f.qual, node, f.cls))
+
+
+def parent_call(x: ast.AST, root: ast.AST):
+    """the Call whose .func is x, if any (x is a method being called rather than a field being read)"""
+    for c in ast.walk(root):
+        if isinstance(c, ast.Call) and c.func is x:
+            return c
+    return None
